@@ -1,6 +1,7 @@
 package main
 
 import (
+	"os"
 	"go/ast"
 	"go/constant"
 	"go/token"
@@ -564,6 +565,9 @@ func c14GRPC(c *Ctx, ix *PkgIndex, m otlpMod) {
 	for _, f := range ix.All {
 		fd, h, r := partialSuccessArm(info, f)
 		if fd {
+			if os.Getenv("VERIF_DBG14") != "" {
+				println("PSA", sp, f.Name, h, r)
+			}
 			c.Analysed(ix.Outer(f))
 			handled = handled || h
 			returned = returned || r
@@ -979,41 +983,133 @@ func c14Retry(c *Ctx, rx *PkgIndex, m otlpMod) {
 
 // partialSuccessArm: f has an `if … .PartialSuccess != nil …` arm; inside it otel.Handle is called (handled) and/or an error is returned (returned).
 func partialSuccessArm(info *types.Info, f *FuncInfo) (found, handled, returned bool) {
-	inspectNoLit(f.Body(), func(n ast.Node) bool {
-		is, ok := n.(*ast.IfStmt)
-		if !ok {
-			return true
-		}
-		mentions := false
-		ast.Inspect(is.Cond, func(m ast.Node) bool {
-			if be, ok := m.(*ast.BinaryExpr); ok && be.Op == token.NEQ && isNilIdent(info, be.Y) {
-				if fv, _ := fieldOf(info, be.X); fv != nil && fv.Name() == "PartialSuccess" {
-					mentions = true
+	// The arm is recognised by what it does, not by the shape of its guard (field test, nil-safe getter, early return, helper):
+	// a *PartialSuccessError value is built; it is handled when it reaches otel.Handle and returned when it reaches a return
+	// statement or a variable of an enclosing scope.
+	// values read out of the response's partial-success message (field or nil-safe getter), followed through local variables
+	tainted := map[types.Object]bool{}
+	mentions := func(e ast.Node) bool {
+		hit := false
+		ast.Inspect(e, func(m ast.Node) bool {
+			switch x := m.(type) {
+			case *ast.FuncLit:
+				return false
+			case *ast.SelectorExpr:
+				if x.Sel.Name == "PartialSuccess" || x.Sel.Name == "GetPartialSuccess" {
+					hit = true
+				}
+			case *ast.Ident:
+				if tainted[info.Uses[x]] {
+					hit = true
 				}
 			}
 			return true
 		})
-		if !mentions {
-			return true
-		}
-		found = true
-		ast.Inspect(is.Body, func(m ast.Node) bool {
-			switch s := m.(type) {
-			case *ast.FuncLit:
-				return false
-			case *ast.CallExpr:
-				if isCallTo(info, s, "go.opentelemetry.io/otel.Handle") {
-					handled = true
-				}
-			case *ast.ReturnStmt:
-				for _, r := range s.Results {
-					if !isNilIdent(info, r) {
-						returned = true
+		return hit
+	}
+	for changed := true; changed; {
+		changed = false
+		inspectNoLit(f.Body(), func(n ast.Node) bool {
+			if as, ok := n.(*ast.AssignStmt); ok && len(as.Lhs) == len(as.Rhs) {
+				for i, r := range as.Rhs {
+					if o := objOf(info, as.Lhs[i]); o != nil && !tainted[o] && mentions(r) {
+						tainted[o] = true
+						changed = true
 					}
 				}
 			}
 			return true
 		})
+	}
+	errT := types.Universe.Lookup("error").Type()
+	isPSE := func(e ast.Expr) bool {
+		call, ok := unparen(e).(*ast.CallExpr)
+		if !ok {
+			return false
+		}
+		if tv, ok := info.Types[call]; !ok || tv.Type == nil || !types.Identical(tv.Type, errT) {
+			return false
+		}
+		for _, a := range call.Args {
+			if mentions(a) {
+				return true
+			}
+		}
+		return false
+	}
+	holders := map[types.Object]bool{}
+	inspectNoLit(f.Body(), func(n ast.Node) bool {
+		switch s := n.(type) {
+		case *ast.AssignStmt:
+			if len(s.Lhs) == len(s.Rhs) {
+				for i, r := range s.Rhs {
+					if isPSE(r) {
+						found = true
+						if o := objOf(info, s.Lhs[i]); o != nil {
+							if s.Tok == token.DEFINE {
+								holders[o] = true
+							} else {
+								returned = true // stored into a variable that outlives the arm
+							}
+						}
+					}
+				}
+			}
+		case *ast.ValueSpec:
+			for i, r := range s.Values {
+				if isPSE(r) && i < len(s.Names) {
+					found = true
+					if o := info.Defs[s.Names[i]]; o != nil {
+						holders[o] = true
+					}
+				}
+			}
+		case *ast.CallExpr:
+			if isPSE(s) {
+				found = true
+			}
+		}
+		return true
+	})
+	flows := func(e ast.Expr) bool {
+		if isPSE(e) {
+			return true
+		}
+		hit := false
+		ast.Inspect(e, func(m ast.Node) bool {
+			if _, ok := m.(*ast.FuncLit); ok {
+				return false
+			}
+			if id, ok := m.(*ast.Ident); ok && holders[info.Uses[id]] {
+				hit = true
+			}
+			return true
+		})
+		return hit
+	}
+	inspectNoLit(f.Body(), func(n ast.Node) bool {
+		switch s := n.(type) {
+		case *ast.CallExpr:
+			if isCallTo(info, s, "go.opentelemetry.io/otel.Handle") && len(s.Args) == 1 && flows(s.Args[0]) {
+				handled = true
+			}
+		case *ast.ReturnStmt:
+			for _, r := range s.Results {
+				if flows(r) {
+					returned = true
+				}
+			}
+		case *ast.AssignStmt:
+			if s.Tok != token.DEFINE && len(s.Lhs) == len(s.Rhs) {
+				for i, r := range s.Rhs {
+					if !isPSE(r) && flows(r) {
+						if o := objOf(info, s.Lhs[i]); o != nil && !holders[o] {
+							returned = true
+						}
+					}
+				}
+			}
+		}
 		return true
 	})
 	return
